@@ -283,8 +283,9 @@ def parse_operand(s: str) -> Operand:
         return Operand('move', parse_place(s[5:]))
     if s.startswith('const '):
         return Operand('const', const=s[6:].strip())
-    if re.match(r'^[A-Za-z_][A-Za-z_0-9:<>, ]*$', s):
-        # a bare function item used as a value (printed without `const`)
+    if re.match(r'^[A-Za-z_<]', s) and not re.match(r'^(copy|move|const)\b', s):
+        # a bare function item used as a value (printed without `const`), e.g. `nop_error_handler`,
+        # `<i64 as std::fmt::Display>::fmt`, `MetricValue::Unsigned`
         return Operand('const', const='ZeroSized: ' + s)
     raise Unsupported('operand: %r' % s)
 
